@@ -8,7 +8,8 @@
 (*   construct  id, fam, gas, flag, cov, c        the user built a species *)
 (*   op         act, src, dst, keep, raised, nout a round trip was called  *)
 (*   obs        id, c     content of a LIVE object, logged for EVERY live  *)
-(*                        object after EVERY op                            *)
+(*                        object after EVERY op (ObsMissing otherwise)     *)
+(*   end                  closes a trace                                   *)
 (* c (content) = [name, phase : character codes; el : <<<<codes, n>>..>>;  *)
 (*   fam : class name; T : temperatures (Dec2); a : rows of coefficients   *)
 (*   (Dec2); misc : kinds of the attached models ("dict" = an entry left   *)
@@ -32,7 +33,7 @@
 (* Clauses: Name, Phase, Elements, Family, TempCount, Temps, CoefShape,    *)
 (* Coefs, PAdjCount, CovKept, AllDecoded, OnlyKnownModels, FlagKept,       *)
 (* CoefArray, Units, ThermdatIdempotent (obs); Raises, ResultCount,        *)
-(* OpAllowed, Ids (op / construct).  Verdicts are total.                   *)
+(* OpAllowed, Ids, ObsMissing (op / construct / end).  Verdicts are total.  *)
 (***************************************************************************)
 EXTENDS Dec2, TLC, TLCExt, Json, IOUtils
 
@@ -106,15 +107,19 @@ ImgRec(r, act) ==
    THEN [r EXCEPT !.prec = "nine", !.fam = "nasa7", !.idem = IF r.prec = "nine" THEN r.cur ELSE NoC, !.cur = NoC]
    ELSE [r EXCEPT !.idem = NoC, !.cur = NoC]          \* the class is inherited: precision never improves
 
+\* every live object has been observed since the previous call
+Unobserved(s) == {i \in s.live : Len(s.o[i].cur) = 0}
 OpClauses(s, e) ==
-   IF ~OpOK(s, e) THEN {"OpAllowed"}
+   IF Unobserved(s) # {} THEN {"ObsMissing"}
+   ELSE IF ~OpOK(s, e) THEN {"OpAllowed"}
    ELSE IF e.raised THEN {"Raises"}
    ELSE IF e.nout # Len(e.src) \/ Len(e.dst) # Len(e.src) THEN {"ResultCount"}
    ELSE IF \A k \in 1..Len(e.dst) : e.dst[k] = Len(s.o) + k THEN {} ELSE {"Ids"}
 
 AfterOp(s, e) ==
    IF OpClauses(s, e) # {} THEN s
-   ELSE [o |-> s.o \o [k \in 1..Len(e.src) |-> ImgRec(s.o[e.src[k]], e.act)],
+   ELSE [o |-> [i \in 1..Len(s.o) |-> [s.o[i] EXCEPT !.cur = NoC]]
+               \o [k \in 1..Len(e.src) |-> ImgRec(s.o[e.src[k]], e.act)],
          live |-> (IF e.keep THEN s.live ELSE s.live \ {e.src[k] : k \in 1..Len(e.src)})
                   \cup {e.dst[k] : k \in 1..Len(e.dst)}]
 
@@ -125,6 +130,7 @@ Clauses(s, e) ==
                            cov |-> e.cov, cur |-> NoC, idem |-> NoC], e.c)
      [] e.ev = "op" -> OpClauses(s, e)
      [] e.ev = "obs" -> IF Known(s, e.id) /\ e.id \in s.live THEN ObsClauses(s.o[e.id], e.c) ELSE {"Ids"}
+     [] e.ev = "end" -> IF Unobserved(s) # {} THEN {"ObsMissing"} ELSE {}
      [] OTHER -> {"UnknownEvent"}
 
 Step(s, e) ==
